@@ -61,10 +61,11 @@ VARIABLES kind,          \* node -> "free" | "obj" | "dict" | "list"
           out,           \* result of the last call
           act,           \* the last call
           obs,           \* observation table: what every accessor read returns in this state
+          cyc,           \* node -> TRUE iff printing the node with inferred values can come back to a node it is printing (finding G02-F2)
           coded          \* node -> key -> TRUE iff the walk AS CODED aborts with IndexError on that read (classifies finding G02-F1)
 
 tree == <<kind, fld, seq, parent, pkey>>
-vars == <<kind, fld, seq, parent, pkey, ovs, memo, out, act, obs, coded>>
+vars == <<kind, fld, seq, parent, pkey, ovs, memo, out, act, obs, coded, cyc>>
 view == <<kind, fld, seq, parent, pkey, ovs, memo>>
 
 NULL == 0
@@ -167,6 +168,18 @@ ObsOf(s, stk) == [n \in Nodes |-> [k \in AllKeys |-> IF s.kind[n] = "free" \/ Ge
                                                       ELSE Resolve(s, stk, n, k)]]
 CodedOf(s, stk) == [n \in Nodes |-> [k \in AllKeys |-> s.kind[n] # "free" /\ Get(s, n, k) # ABSENT
                                                         /\ ResolveG(TRUE, s, stk, n, k) = IDXERR]]
+\* The rule allows a placeholder to resolve to a node that CONTAINS its holder (o.x = child, child.x = placeholder reads as
+\* child).  Following resolved values instead of stored ones therefore need not terminate: Cyclic(n) says that it does not
+\* when started at n.  Edges are taken under the active scopes and under none (printing does not consult the holder's
+\* overrides), which over-approximates: cyc = FALSE means every consumer that follows inferred values must terminate.
+ResKids(s, stk, m) == (UNION {{ResolveG(FALSE, s, stk, m, k), ResolveG(FALSE, s, <<>>, m, k)} : k \in KeysOf(s, m)}) \cap Nodes
+RECURSIVE ReachN(_,_,_,_)
+ReachN(s, stk, S, i) == IF i = 0 THEN S
+                        ELSE LET T == S \cup UNION {ResKids(s, stk, m) : m \in S} IN
+                             IF T = S THEN S ELSE ReachN(s, stk, T, i - 1)
+ReachPlus(s, stk, n) == ReachN(s, stk, ResKids(s, stk, n), MaxNodes)
+Cyclic(s, stk, n) == \E m \in ReachPlus(s, stk, n) \cup {n} : m \in ReachPlus(s, stk, m)
+CycOf(s, stk) == [n \in Nodes |-> s.kind[n] # "free" /\ Cyclic(s, stk, n)]
 NoMemo == [n \in Nodes |-> [k \in AllKeys |-> NOMEMO]]
 
 ---------------------------------------------------------------------------
@@ -216,7 +229,7 @@ Commit(s, stk, o) ==
   /\ kind' = s.kind /\ fld' = s.fld /\ seq' = s.seq /\ parent' = s.parent /\ pkey' = s.pkey
   /\ ovs' = stk /\ out' = o
   /\ memo' = IF Cache = "flush" THEN NoMemo ELSE memo
-  /\ obs' = ObsOf(s, stk) /\ coded' = CodedOf(s, stk)
+  /\ obs' = ObsOf(s, stk) /\ coded' = CodedOf(s, stk) /\ cyc' = CycOf(s, stk)
 
 ---------------------------------------------------------------------------
 (* Actions                                                                                   *)
@@ -280,7 +293,7 @@ Read(n, k) ==                              \* n.k / n[k]: the only call that may
          r == IF Cache # "none" /\ memo[n][k] # NOMEMO THEN memo[n][k] ELSE fresh
      IN /\ out' = r
         /\ memo' = IF Cache = "none" THEN memo ELSE [memo EXCEPT ![n][k] = r]
-        /\ UNCHANGED <<tree, ovs, obs, coded>>
+        /\ UNCHANGED <<tree, ovs, obs, coded, cyc>>
 
 ---------------------------------------------------------------------------
 P(S) == IF SimK = 0 \/ S = {} THEN S ELSE RandomSubset(PMin(SimK, Cardinality(S)), S)
@@ -329,7 +342,7 @@ Init ==
   \E s \in InitStates :
     /\ kind = s.kind /\ fld = s.fld /\ seq = s.seq /\ parent = s.parent /\ pkey = s.pkey
     /\ ovs = <<>> /\ memo = NoMemo /\ out = 0 /\ act = <<"Init", s.kind[1], s.kind[2], s.kind[3]>>
-    /\ obs = ObsOf(s, <<>>) /\ coded = CodedOf(s, <<>>)
+    /\ obs = ObsOf(s, <<>>) /\ coded = CodedOf(s, <<>>) /\ cyc = CycOf(s, <<>>)
 
 Spec == Init /\ [][Next]_vars
 LevelBound == TLCGet("level") <= MaxLevel
@@ -362,6 +375,11 @@ ObsIsCurrent == obs = ObsOf(St, ovs)
 \* an intended read never fails with anything but AttributeError, and never yields a placeholder
 ReadTotal == \A n \in Alive(St) : \A k \in KeysOf(St, n) :
                LET r == Resolve(St, ovs, n, k) IN r # IDXERR /\ ~IsPH(r) /\ r # MISS /\ r # ABSENT
+
+\* NOT an invariant (negative control G02_acyclic.cfg): resolved values never lead back to the node they were read from.
+\* TLC refutes it in one step (a child stored under z whose own z becomes a placeholder reads as itself), which is why a
+\* consumer that follows inferred values (repr of a ContextualObject) must guard against revisiting a node.
+ResolutionIsAcyclic == \A n \in Alive(St) : ~Cyclic(St, ovs, n)
 
 \* (2) reading changes nothing that a later read or sym_getattr can see
 ReadDoesNotWrite == [][act'[1] = "Read" => UNCHANGED <<kind, fld, seq, parent, pkey, ovs, obs>>]_vars
